@@ -67,6 +67,11 @@ def run_shard(spec, rep):
                 fc.tp, fc.pp, fc.mode = tflip, None, "Tflip"
                 fc.precision = rng.choice([fc.precision, 5e-5, 1e-6])
                 rep.count("critical_slowing_cases")
+        if index % 400 == 7:
+            # a requested precision at or below the resolution of a double: the change of the iterate cannot get below it, the
+            # bound on the evaluations has to end the call
+            fc.precision = rng.choice([1e-15, 1.1e-16, 1e-16, 1e-17, 1e-300, 0.0])
+            rep.count("sub_resolution_precision_cases")
         case = dict(fc.describe(), index=index)
         rep.case(case, nontrivial=fc.mode != "V", cls=f"{fc.model}-{fc.mode}")
         _guarded(rep, case, "flux", lambda: fc.pv.calculate_partial_fluxes(**fc.kwargs()))
